@@ -4,7 +4,7 @@ import ImathVerif.Lemmas.C08Lemmas
 
 Separate module so that this tree elaborates in parallel with the Vec2/Vec3 ones (≈ 50 s).
 Same scheme as `Lemmas/C08Lemmas.lean`: peel the `if`s one at a time, close each of the 257 leaves with
-`scaled4` (scaled branch, `0 < m` from the path conditions), `zero4` (all components forced to 0) or `ring`
+`scaled_div` (scaled branch, `0 < m` from the path conditions), `zero4` (all components forced to 0) or `ring`
 (direct branch).  Exact arithmetic only; rounding is measured by the residue harness (level: partial).
 -/
 namespace ImathVerif.C08
@@ -20,13 +20,15 @@ theorem V4_length_eq (tmin : α) (hsqrt : ∀ x, 0 ≤ x → sqrt x * sqrt x = x
     Gen.V4.length tmin sqrt a = sqrt (a.x * a.x + a.y * a.y + a.z * a.z + a.w * a.w) := by
   obtain ⟨x, y, z, w⟩ := a
   simp (config := { maxSteps := 10000000 }) only [Gen.V4.length]
+  have hS0 : 0 ≤ x * x + y * y + z * z + w * w :=
+    add_nonneg (add_nonneg (add_nonneg (mul_self_nonneg _) (mul_self_nonneg _)) (mul_self_nonneg _)) (mul_self_nonneg _)
   repeat' (refine ite_eq_of ?_ ?_ <;> intro _)
   all_goals first
     | (refine congrArg sqrt ?_; ring)
-    | (refine scaled4 hsqrt (lt_of_le_of_ne' (by linarith) (by assumption)) (by ring))
     | (refine zero4 hsqrt (x := x) (y := y) (z := z) (w := w) (le_antisymm (by linarith) (by linarith))
         (le_antisymm (by linarith) (by linarith)) (le_antisymm (by linarith) (by linarith))
         (le_antisymm (by linarith) (by linarith)) (by ring))
+    | (refine scaled_div hsqrt (lt_of_le_of_ne' (by linarith) (by assumption)) hS0 (by ring))
 
 theorem V4_length_sq (tmin : α) (hsqrt : ∀ x, 0 ≤ x → sqrt x * sqrt x = x ∧ 0 ≤ sqrt x) (a : V4 α) :
     Gen.V4.length tmin sqrt a * Gen.V4.length tmin sqrt a = a.x * a.x + a.y * a.y + a.z * a.z + a.w * a.w ∧
